@@ -239,6 +239,7 @@ let drv_world () =
     | ["cfgbind"; id] -> bind := (if id = "invalid" then None else Some id)
     | ["tick"; n] -> w := { !w with w_clock = coqz_of_z (ZA.add (z_of_coqz (!w).w_clock) (ZA.of_string n)) }
     | ["chunk"; n] -> chunk := int_of_string n
+    | ["nofile"; _] -> ()   (* the descriptor limit of the implementation's process: no counterpart in the model *)
     | "oracle" :: kind :: rest ->
         (match kind, rest with
          | "crash", [k] -> let k = int_of_string k in orc := (fun i -> if i = k then FCrash else FNone)
